@@ -588,6 +588,35 @@ fn seeds(m: &RaftModel, init: &Sys) -> Vec<Sys> {
             }
         }
     }
+    // 8. two leadership changes: n2 leads term 3 with a log spanning two terms (term-2 entry committed),
+    //    while the first leader n0 still holds its stale term-1 suffix
+    if m.cfg.max_term >= 3 && m.cfg.max_log >= 2 {
+        let steps: Vec<(&str, Box<dyn Fn(&Sys) -> Option<Sys>>)> = vec![
+            ("propose0", Box::new(|s| m.next_state(s, Act::Propose(0)))),
+            ("elect1", Box::new(|s| elect(m, s, 1, 2))),
+            ("rt1", Box::new(|s| round_trip(m, s, 1, 2))),
+            ("rt1b", Box::new(|s| round_trip(m, s, 1, 2))),
+            ("propose1", Box::new(|s| m.next_state(s, Act::Propose(1)))),
+            ("rt2", Box::new(|s| round_trip(m, s, 1, 2))),
+            ("rt3", Box::new(|s| round_trip(m, s, 1, 2))),
+            ("elect2", Box::new(|s| elect(m, s, 2, 1))),
+        ];
+        let mut cur = Some(s3.clone());
+        for (name, f) in &steps {
+            cur = cur.and_then(|s| f(&s));
+            if cur.is_none() {
+                if std::env::var("VERIF_DEBUG").is_ok() {
+                    eprintln!("seed 8: step {name} failed");
+                }
+                break;
+            }
+        }
+        let s8 = cur;
+        if let Some(mut s8) = s8 {
+            s8.net.clear();
+            out.push(s8);
+        }
+    }
     out.into_iter().filter(|s| s.violation.is_none()).collect()
 }
 
@@ -644,7 +673,7 @@ fn main() {
         rep.add("evaluations", r.total as u64);
         rep.add("distinct_nontrivial", r.unique as u64);
         let witnesses: Vec<&String> = r.discoveries.keys().filter(|k| *k != "safe").collect();
-        rep.part(&label, json!({"unique_states": r.unique, "transitions": r.total, "depth_bound": cap, "max_depth_reached": r.depth, "complete_to_depth_bound": r.done, "seeds": if cfg.seeds { 8 } else { 1 }, "witnesses_found": witnesses}));
+        rep.part(&label, json!({"unique_states": r.unique, "transitions": r.total, "depth_bound": cap, "max_depth_reached": r.depth, "complete_to_depth_bound": r.done, "seeds": RaftModel { cfg: cfg.clone() }.init_states().len(), "witnesses_found": witnesses}));
         if !r.done {
             rep.capped(&format!("{label}: generated-state cap reached at depth {} before depth bound {cap} was complete", r.depth));
         }
